@@ -1,5 +1,5 @@
 import numpy as np
-from math import factorial
+from math import factorial, lgamma
 
 
 def poisson(kmean: float) -> callable:
@@ -10,6 +10,14 @@ def poisson(kmean: float) -> callable:
     """
 
     def p(k: int) -> float:
-        return np.exp(-kmean) * pow(kmean, k) / factorial(k)
+        try:
+            value = np.exp(-kmean) * pow(kmean, k) / factorial(k)
+        except OverflowError:
+            value = np.inf
+        if np.isfinite(value):
+            return value
+        # pow(kmean, k) or float(k!) overflowed a double although the pmf itself is
+        # representable: evaluate exp(-m) m^k / k! through its logarithm
+        return np.exp(k * np.log(kmean) - kmean - lgamma(k + 1))
 
     return p
